@@ -2,6 +2,7 @@ import JsonVerif.Lemmas.Conservative
 import JsonVerif.Lemmas.Steps
 import JsonVerif.Model.Entry
 import JsonVerif.Gen.ParsePresets
+import JsonVerif.Lemmas.LenientStr
 /-!
 # C12 — Lenient options: conservative extension relaxing only surrogate escapes
 
@@ -40,6 +41,58 @@ theorem C12_conservative_str (o : ParseOptions) (cs : List Char) (r : JValue × 
 theorem C12_conservative_slice (o : ParseOptions) (b : List UInt8) (r : JValue × List CMEntry)
     (h : parseSlice strictOpts b = .ok r) : parseSlice o b = .ok r :=
   C12_conservative o _ _ r h
+
+/-- **Exactness** (second sentence of the property), at the only place where the options are
+    consulted — the string scanner, for values and keys alike: under ANY option record the scanner
+    accepts a string literal and returns `str` if and only if the literal is an `LString o`
+    (Spec/Lenient.lean) denoting `str`. `LString o` is the RFC 8259 `string` production extended by
+    exactly two element kinds: a high-surrogate escape not directly followed by a low-surrogate
+    escape (iff `accept_truncated_surrogate_pair`) and a low-surrogate escape not preceded by a high
+    one (iff `accept_invalid_codepoints`), each denoting exactly one U+FFFD; a high escape directly
+    followed by a low escape is one scalar value under every option record. Both directions, every
+    string, no bound. -/
+theorem C12_string_exact (o : ParseOptions) (s : PS) (str r : List Char) :
+    (∃ s', lexString o s = .ok (str, s') ∧ s'.rest = r) ↔ ∃ t, s.rest = t ++ r ∧ LString o t str :=
+  lexString_iff o s str r
+
+/-- with both options off `LString` adds nothing to RFC 8259 … -/
+theorem C12_strict_adds_nothing (t cs : List Char) : LBody ⟨false, false⟩ t cs ↔ GBody t cs :=
+  ⟨LBody.strict, GBody.lenient _⟩
+
+/-- … the two options act independently and monotonically: switching an option on never changes the
+    meaning of a string that was already accepted (each rule mentions exactly one option). -/
+theorem C12_monotone (o o' : ParseOptions) (ht : o.trunc = true → o'.trunc = true)
+    (hi : o.inval = true → o'.inval = true) (t cs : List Char) (h : LBody o t cs) : LBody o' t cs := by
+  induction h with
+  | nil => exact .nil
+  | elem t c ts cs he _ ih => exact .elem t c ts cs he ih
+  | loneHigh a b c d hi' ts cs h0 h1 h2 h3 _ ih => exact .loneHigh a b c d hi' ts cs (ht h0) h1 h2 h3 ih
+  | loneLow a b c d lo ts cs h0 h1 h2 _ ih => exact .loneLow a b c d lo ts cs (hi h0) h1 h2 ih
+
+/-- an unpaired high surrogate needs `accept_truncated_surrogate_pair`, whatever the other option -/
+theorem C12_lone_high_needs_trunc (i : Bool) (a b c d : Char) (hi : Nat) (h1 : hexCp a b c d = some hi)
+    (h2 : isHigh hi = true) (cs : List Char) : ¬ LBody ⟨false, i⟩ ['\\', 'u', a, b, c, d] cs := by
+  intro h
+  generalize ht : (['\\', 'u', a, b, c, d] : List Char) = t at h
+  cases h with
+  | nil => cases ht
+  | elem t c1 ts cs1 he hb =>
+    cases he with
+    | raw c2 r1 r2 r3 => simp at ht; exact r2 ht.1.symm
+    | esc e ch e1 e2 => simp at ht; exact e1 ht.1.symm
+    | u a1 b1 c2 d1 cp ch u1 u2 u3 =>
+      simp at ht
+      obtain ⟨rfl, rfl, rfl, rfl, _⟩ := ht
+      rw [h1] at u1; cases u1
+      rw [h2] at u2; cases u2
+    | pair a1 b1 c2 d1 a2 b2 c3 d2 hi1 lo ch p1 p2 p3 p4 p5 => simp at ht
+  | loneHigh a1 b1 c1 d1 hi1 ts cs1 h0 => cases h0
+  | loneLow a1 b1 c1 d1 lo ts cs1 h0 l1 l2 hb =>
+    simp at ht
+    obtain ⟨rfl, rfl, rfl, rfl, _⟩ := ht
+    rw [h1] at l1; cases l1
+    have := isLow_not_high l2
+    rw [h2] at this; cases this
 
 /-! Non-vacuity: a strict-valid document with a surrogate pair and duplicate keys. -/
 example : ∃ r, parseStr strictOpts "{\"a\":\"\\ud834\\udd1e\",\"a\":[1e2]}".toList = .ok r := by
